@@ -67,6 +67,7 @@ def build(u):
     u.spec('section_iter.rs')
     u.spec('flatten.rs')
     u.spec('index.rs')
+    u.spec('sm_lookup.rs')
     u.spec('index_lookup.rs')
     u.spec('agreement.rs')
     IMPL = r'SourceMapBuilder\b'
